@@ -22,7 +22,11 @@ NextText == Len(text) < MaxLen /\ \E c \in Alphabet : text' = Append(text, c) /\
 \* JSON trees: objects whose members are drawn from the names the Hayson visitor looks at
 K(s) == CodePoints(s)
 Names == {K("_kind"), K("val"), K("unit"), K("dis"), K("tz"), K("lat"), K("lng"), K("type"), K("meta"), K("cols"), K("rows"), K("name"), K("a"), K("ver")}
-Leaves == {JNull, JBool(TRUE), JNum(K("1")), JNum(K("-1.5e3")), JStr(K("x")), JStr(K("m")), JStr(K("INF")), JStr(K("NaN")),
+Leaves == {JNull, JBool(TRUE), JNum(K("1")), JNum(K("-1.5e3")),
+           \* integers around the edges of i64 / u64 (serde_json hands them to different visitor methods), out-of-range exponents
+           JNum(K("9223372036854775807")), JNum(K("9223372036854775808")), JNum(K("18446744073709551615")),
+           JNum(K("18446744073709551616")), JNum(K("-9223372036854775808")), JNum(K("-9223372036854775809")),
+           JNum(K("1E2")), JNum(K("0.5")), JNum(K("-0")), JNum(K("1e400")), JNum(K("1e-400")), JStr(K("x")), JStr(K("m")), JStr(K("INF")), JStr(K("NaN")),
            JStr(K("2021-01-15")), JStr(K("12:30:00")), JStr(K("2021-01-15T12:30:00Z")), JStr(K("2021-01-15T12:30:00+05:30")),
            JStr(K("New_York")), JStr(K("Nowhere")), JStr(K("3.0")), JArr(<<>>), JObj(<<>>), JArr(<<JNum(K("1"))>>),
            JObj(<<<<K("name"), JStr(K("a"))>>>>), JArr(<<JObj(<<<<K("name"), JStr(K("a"))>>>>)>>), JArr(<<JObj(<<<<K("a"), JNum(K("1"))>>>>)>>)}
@@ -53,14 +57,29 @@ Frames == {<<<<34>>, <<34>>>>, <<<<34>>, <<>>>>, <<<<96>>, <<96>>>>, <<<<96>>, <
 InitEsc == /\ tree = JNull
            /\ text \in {f[1] \o e \o t \o f[2] : f \in (IF MaxLen >= 4 THEN Frames ELSE {f \in Frames : Len(f[1]) = 1}), e \in Escs, t \in Tails}
 
-Init == CASE Mode = "text" -> InitText [] Mode = "esc" -> InitEsc [] OTHER -> InitTree
-Next == CASE Mode = "text" -> NextText [] Mode = "esc" -> UNCHANGED vars [] OTHER -> NextTree
+\* Number family: every numeral the grammar's number production builds from these parts - sign, integer digits,
+\* fraction, exponent (both letter cases, explicit signs, leading zeros) with the "_" separator in every digit run -
+\* followed by a unit or not, bare and inside a list, a dict and a grid cell
+NSigns == {<<>>, <<45>>}
+NInts == {K("0"), K("7"), K("12"), K("1_2"), K("1_2_3"), K("007")}
+NFracs == {<<>>, K(".5"), K(".0_5"), K(".25")}
+NExps == {<<>>, K("e1"), K("E1"), K("e+1"), K("e-1"), K("E+0_2"), K("e1_0"), K("e-0_1"), K("e01")}
+NUnits == {<<>>, K("m"), K("kW"), K("%"), K("$"), <<176, 70>>, K("_")}
+NFrames == {<<<<>>, <<>>>>, <<K("["), K("]")>>, <<K("[1, "), K(" ,2]")>>, <<K("{a:"), K(" b}")>>,
+            <<K("ver:\"3.0\"") \o <<10, 97, 44, 98, 10>>, <<44, 49, 10>>>>}
+InitNum == /\ tree = JNull
+           /\ text \in {f[1] \o sg \o i \o fr \o ex \o u \o f[2] :
+                          f \in (IF MaxLen >= 4 THEN NFrames ELSE {g \in NFrames : Len(g[1]) <= 1}),
+                          sg \in NSigns, i \in NInts, fr \in NFracs, ex \in NExps, u \in NUnits}
+
+Init == CASE Mode = "text" -> InitText [] Mode = "esc" -> InitEsc [] Mode = "num" -> InitNum [] OTHER -> InitTree
+Next == CASE Mode = "text" -> NextText [] Mode \in {"esc", "num"} -> UNCHANGED vars [] OTHER -> NextTree
 Spec == Init /\ [][Next]_vars
 
 \* totality of the specification's own readers
-ReaderTotal == IF Mode \in {"text", "esc"} THEN ZincRead(text).ok \in BOOLEAN ELSE HaysonRead(tree).ok \in BOOLEAN
+ReaderTotal == IF Mode \in {"text", "esc", "num"} THEN ZincRead(text).ok \in BOOLEAN ELSE HaysonRead(tree).ok \in BOOLEAN
 \* an accepted text is consumed entirely and reading is deterministic (same result twice)
 Emit == EmitVectors =>
-          IF Mode \in {"text", "esc"} THEN PrintT("VEC " \o ToJson([op |-> "dec.zinc", text |-> text, src |-> "enum"]))
+          IF Mode \in {"text", "esc", "num"} THEN PrintT("VEC " \o ToJson([op |-> "dec.zinc", text |-> text, src |-> "enum"]))
           ELSE PrintT("VEC " \o ToJson([op |-> "dec.json.tree", tree |-> tree, src |-> "enum"]))
 =============================================================================
